@@ -719,7 +719,7 @@ fn typing(rep: &Report) {
     }
 
     // text and text lists: exactly what is written
-    for sp in ["abc", "a.b-c_d", "ø", "日本", "1,2", "@null", "a:b"] {
+    for sp in ["abc", "a.b-c_d", "ø", "日本", "1,2", "@null", "a:b", "file₁.gsb", "x₀"] {
         for key in ["t", "tr"] {
             rep.eval(1);
             match typed_params(&format!("{key}={sp}")) {
@@ -728,7 +728,7 @@ fn typing(rep: &Report) {
             }
         }
     }
-    for (sp, want) in [("a", vec!["a"]), ("a,b,c", vec!["a", "b", "c"]), ("@x.grid,y.gsb,@null", vec!["@x.grid", "y.gsb", "@null"]), ("ø,日本", vec!["ø", "日本"])] {
+    for (sp, want) in [("a", vec!["a"]), ("a,b,c", vec!["a", "b", "c"]), ("@x.grid,y.gsb,@null", vec!["@x.grid", "y.gsb", "@null"]), ("ø,日本", vec!["ø", "日本"]), ("a₂,b", vec!["a₂", "b"])] {
         for key in ["ts", "tsr"] {
             rep.eval(1);
             let want: Vec<String> = want.iter().map(|s| s.to_string()).collect();
